@@ -9,7 +9,7 @@ export GOFLAGS=-mod=mod GOPROXY=off GOSUMDB=off GOTOOLCHAIN=local CGO_ENABLED=0
 export VERIF_DIR=$VERIF VERIF_REPO=${VERIF_REPO:-/repo}
 GO=go1.26.8
 mkdir -p bin evidence replays
-cp -f "$VERIF_REPO/go.sum" sim/go.sum.repo.$$ 2>/dev/null && mv -f sim/go.sum.repo.$$ sim/go.sum.repo && cat sim/go.sum.repo sim/go.sum.extra 2>/dev/null | sort -u > sim/go.sum.$$ && mv -f sim/go.sum.$$ sim/go.sum; rm -f sim/go.sum.repo
+cat "$VERIF_REPO/go.sum" sim/go.sum.extra 2>/dev/null | sort -u > sim/go.sum.$$ && mv -f sim/go.sum.$$ sim/go.sum
 MODFILE=""
 if [ "$VERIF_REPO" != /repo ]; then
   sed "s#=> /repo#=> $VERIF_REPO#" sim/go.mod > bin/alt-$$.mod; cp sim/go.sum bin/alt-$$.sum; MODFILE="-modfile=$VERIF/bin/alt-$$.mod"
